@@ -293,6 +293,10 @@ func init() {
 				if i%5 == 0 {
 					dc[i].P["liars"] = 0
 				}
+				// honest clocks ahead of the clock of the machine that computes the
+				// median (all of them / half of them): the median is over what the
+				// famous witnesses claim, not over what the local clock allows
+				dc[i].P["fastclocks"] = int64(i % 3)
 			}
 			return append(cs, dc...)
 		},
